@@ -134,4 +134,89 @@ def carrier_trace_records(embs, seed, start_id):
                 ctx[rid] = {"cls": cls.__name__, "obj": f"{a} with {f.name}=<function>", "res": f"{b} with {f.name}=<function>: {what}", "what": what, "opname": "__eq__", "carrier": f.name,
                             "function_pair": what}
                 rid += 1
+    # keyword construction in another order than the declaration: the same instance as positional construction
+    for emb in embs:
+        cls = emb.cls
+        if not dataclasses.is_dataclass(cls):
+            continue
+        flds = dataclasses.fields(cls)
+        sf = [g.name for g in flds if g.metadata.get("sympify", True)]
+        if len(sf) < 2:
+            continue
+        syms = sp.symbols(f"k1:{len(sf) + 1}")
+        vals = dict(zip(sf, syms))
+        try:
+            with warnings.catch_warnings():
+                warnings.simplefilter("ignore")
+                probe = emb.build([x, y][: emb.ar], tuple("a" for _ in range(emb.na)), tuple(range(emb.ar)))
+                pos = cls(*[vals[g.name] if g.name in vals else getattr(probe, g.name) for g in flds])   # every field, declaration order
+                kw = cls(**{n_: vals[n_] for n_ in reversed(sf)})
+                mixed = cls(vals[sf[0]], **{n_: vals[n_] for n_ in reversed(sf[1:])})
+        except Exception as ex:  # noqa: BLE001
+            skipped.append(f"{cls.__name__} (keyword construction): {type(ex).__name__}: {str(ex)[:80]}")
+            continue
+        for other, what in ((kw, "all arguments by keyword, reversed order"), (mixed, "first argument positional, the others by keyword in reversed order")):
+            recs.append({"id": rid, "op": "same", "t": T.to_json(project_generic(pos)), "u": T.to_json(project_generic(other)), "eq": int(pos == other), "hash": int(hash(pos) == hash(other))})
+            ctx[rid] = {"cls": cls.__name__, "obj": str(pos), "res": f"{other} ({what})", "what": what, "opname": "__new__", "carrier": "keyword", "keyword_pair": what}
+            rid += 1
+    return recs, ctx, skipped
+
+
+def default_argument_records(embs, start_id, ops=("pickle", "subst")):
+    """Instances built with their optional constructor arguments OMITTED (the class universe passes every argument explicitly):
+    the default of an argument may be stored in another form than an explicit value (None, a token) and has to survive
+    the reconstruction that pickle, subs and xreplace perform."""
+    import pickle
+
+    x, w = sp.symbols("x w")
+    recs, ctx, skipped = [], {}, []
+    rid = start_id
+    for emb in embs:
+        cls = emb.cls
+        try:
+            with warnings.catch_warnings():
+                warnings.simplefilter("ignore")
+                probe = emb.build([x, sp.Symbol("y")][: emb.ar], tuple("a" for _ in range(emb.na)), tuple(range(emb.ar)))
+                if dataclasses.is_dataclass(cls):
+                    flds = dataclasses.fields(cls)
+                    req = [g for g in flds if g.default is dataclasses.MISSING and g.default_factory is dataclasses.MISSING]
+                    if len(req) == len(flds):
+                        continue
+                    obj = cls(*[getattr(probe, g.name) for g in req])
+                else:
+                    sig = inspect.signature(cls.__new__)
+                    params = [p_ for p_ in list(sig.parameters.values())[1:] if p_.kind in (p_.POSITIONAL_ONLY, p_.POSITIONAL_OR_KEYWORD)]
+                    nreq = len([p_ for p_ in params if p_.default is p_.empty])
+                    if nreq == len(params) or nreq == 0 or nreq > len(probe.args):
+                        continue
+                    obj = cls(*probe.args[:nreq])
+                if not isinstance(obj, cls) or obj == probe:
+                    continue
+        except Exception as ex:  # noqa: BLE001
+            skipped.append(f"{cls.__name__} (defaults omitted): {type(ex).__name__}: {str(ex)[:80]}")
+            continue
+        tj = T.to_json(project_generic(obj))
+        todo = []
+        if "pickle" in ops:
+            todo.append(("pickle", "pickle", lambda o: pickle.loads(pickle.dumps(o)), None))
+        if "subst" in ops:
+            todo.append(("subst", "xreplace", lambda o: o.xreplace({x: w}), [(x, w)]))
+            todo.append(("subst", "subs", lambda o: o.subs(x, w), [(x, w)]))
+        for op, opname, fn, m in todo:
+            info = {"cls": cls.__name__, "obj": f"{obj} (optional constructor arguments omitted)", "what": f"{opname}", "opname": opname, "carrier": "defaults", "defaults_omitted": 1}
+            try:
+                with warnings.catch_warnings():
+                    warnings.simplefilter("ignore")
+                    res = fn(obj)
+            except Exception as ex:  # noqa: BLE001
+                recs.append({"id": rid, "op": "error", "t": tj})
+                ctx[rid] = {**info, "exc": type(ex).__name__, "what": f"{opname} raised {ex!r}"}
+                rid += 1
+                continue
+            rec = {"id": rid, "op": op, "t": tj, "r": T.to_json(project_generic(res))}
+            if m:
+                rec["m"] = [[T.to_json(project_generic(k)), T.to_json(project_generic(r_))] for k, r_ in m]
+            recs.append(rec)
+            ctx[rid] = {**info, "res": str(res)}
+            rid += 1
     return recs, ctx, skipped
